@@ -51,7 +51,7 @@ def item_null_escapes(f):
 
 
 def run(res, tier):
-    fx = common.load_units(res, ['util/ByteBuffer.cpp'], fn_regex=r'^muscle::(ConstRef|Ref|ObjectPool|AtomicCounter|RefCountable|PointerAndBits)(::|$)', extra=[common.INSTANTIATE])
+    fx = common.load_units(res, ['util/ByteBuffer.cpp'], fn_regex=r'^muscle::(ConstRef|Ref|ObjectPool|AtomicCounter|RefCountable|PointerAndBits|CastAwayConstFromRef)(::|$)', extra=[common.INSTANTIATE])
     INST_R = 'ConstRef<muscle::ByteBuffer>'
     INST_P = 'ObjectPool<muscle::VerifPooledObject'
     # ------------------------------------------------------------------------------------------- RMW
@@ -236,6 +236,30 @@ def run(res, tier):
         res.ob('POOL', g.where(bad[0]) if bad else g.where(), '%d access(es) to the slab list in %s hold _mutex' % (len(acc), short), not bad, function=g.q,
                how='must-hold lock set contains _mutex%s' % (' (assumed at entry: held at all call sites)' if cl.entry.get(g.id) else ''), key='POOL|%s|lockset' % g.q,
                message='%s touches %s at line %s without holding the pool mutex' % (g.q, bad[0].get('n') if bad else '', bad[0].get('l') if bad else ''))
+    # ---- round-2 additions
+    n_cast = 0
+    for f in sorted((f for f in fx.funcs.values() if f.full and re.search(r'^muscle::(CastAwayConstFromRef|CastAwayConstFromConstRef)', f.q)), key=lambda f: (f.file, f.line, f.id)):
+        for c in f.walk():
+            if c['k'] == 'CXXMemberCallExpr' and (c.get('q') or '').endswith('::SetRef') and c.args():
+                n_cast += 1
+                okc = len(c.args()) >= 2 and c.args()[1]['k'] != 'CXXDefaultArgExpr' and any(x.is_call() and (x.get('q') or '').endswith('::IsRefCounting') for x in c.args()[1].walk())
+                res.ob('REF-PAIR', f.where(c), 'CastAwayConstFromRef forwards the source\'s counting flag to SetRef', okc, function=f.q, key='REF-PAIR|muscle::CastAwayConstFromRef|forward-counting',
+                       message='CastAwayConstFromRef calls SetRef(item) with the default doRefCount=true: the const-cast of a non-counting reference (DummyConstRef, a stack or member object) yields an owning Ref; '
+                               'when it dies the count goes 0 -> 1 -> 0 and the object is deleted although its real owner is still using it (double destruction)')
+    rcc = [f for f in fx.funcs.values() if f.q == 'muscle::RefCountable::(ctor)' and len(f.params) == 1 and 'RefCountable' in f.ptype(f.params[0])]
+    for f in rcc[:1]:
+        mi = [i_ for i_ in f.inits if i_.get('field') == '_manager']
+        okm = True
+        for i_ in mi:
+            e = i_.get('e')
+            if e is not None and any(x['k'] in ('MemberExpr', 'DeclRefExpr') and (x.get('n') == '_manager' or x.get('d') == f.params[0]['d']) for x in e.walk()):
+                okm = False
+        n_cast += 1
+        res.ob('POOL', f.where(), 'the RefCountable copy constructor does not copy the manager pointer', okm, function=f.q, key='POOL|muscle::RefCountable|copy-no-manager',
+               message='RefCountable\'s copy constructor copies _manager from the source: a heap-allocated copy of a pooled object claims to belong to the pool; when its last Ref goes away it is handed to '
+                       'ObjectPool::ReleaseObject(), which treats the heap block as a slab slot (bogus index, write to a bogus slab address)')
+    if n_cast < 2:
+        raise AnalysisBroken('REF-PAIR/POOL round-2: CastAwayConstFromRef / RefCountable copy constructor not found (%d)' % n_cast)
     # ---- REF-PAIR (order): when a Ref switches items the new item is referenced before the old one is released
     for f in sorted(methods, key=lambda f: f.line):
         if f.q.split('::')[-1] != 'SetRef':
